@@ -58,6 +58,13 @@ def tokData : PyTok → Except PyErr Bytes
   | .data b => .ok b
   | .name _ => .error .valueError
   | .int _ => .error .typeError
+/-- `key in CODE_OPS` / `CODE_OPS[key]` for the bytes-keyed opcode table -/
+def inTableB (t : List (Bytes × String)) (k : Bytes) : Bool := (t.lookup k).isSome
+def lookupB (t : List (Bytes × String)) (k : Bytes) : Except PyErr String :=
+  match t.lookup k with
+  | some s => .ok s
+  | none => .error .other           -- KeyError
+
 /-- `tokens[k]` for a constant non-negative index -/
 def tokIndex (ts : List PyTok) (k : Int) : Except PyErr PyTok :=
   if k < 0 then .error .indexError
